@@ -27,7 +27,8 @@ def worker(k):
                 m["detected_by"] = sorted(set(old + det))
                 m["missed_by"] = sorted(set(m.get("missed_by", [])) - set(det) | {l.split(" :: ")[0].split()[1] for l in lines if " OK " in l or l.split(" :: ")[1].startswith("OK")})
                 json.dump(m, open(mp, "w"), indent=1)
-ts = [threading.Thread(target=worker, args=(k,)) for k in range(1, n + 1)]
+base = int(os.environ.get("LANE_BASE", "0"))
+ts = [threading.Thread(target=worker, args=(base + k,)) for k in range(1, n + 1)]
 [t.start() for t in ts]
 [t.join() for t in ts]
 print("lanes finished", flush=True)
